@@ -224,7 +224,7 @@ def _apply_later(ctx, dom, func, fn, st):
     outside = ast.parse("def _reading_the_content_later():\n    pass").body[0]   # a frame that is not the defining one: closures must bring their environment
     fr = Frame(outside, 0, None, name="<reading the content>", is_method=False)
     from ..absint import Result, unbox_deep, without_heap
-    return [Result(r.kind, unbox_deep(r.value, r.state), without_heap(r.state)) for r in dom.apply(it, fn, [], [], st, fr)]
+    return [Result(r.kind, unbox_deep(r.value, r.state, iters=True), without_heap(r.state)) for r in dom.apply(it, fn, [], [], st, fr)]
 
 
 def check_sources(ctx):
